@@ -366,4 +366,12 @@ def RD_incident_edges(ctx):
     R2_direction(ctx)
 
 
-RULES = [R1_decision_table, R2_loop_exits, R3_route_or_error, R4_response, R_graph_roles, R5_who_reports_no_path, RA_adjacency_container, RB_edge_oriented, RC_adjacency_built, RD_incident_edges]
+def RE_restrictions_of_this_query(ctx):
+    """"reachable through permitted edges": permitted by *this* query's restrictions — the frontier services hand the model what was
+    parsed from the query they were given (shared with C04.R6; round 7: the road-class selection memoised in the service, so every
+    later query was searched with the first query's classes)"""
+    from props.C04 import R6_plumbing
+    R6_plumbing(ctx)
+
+
+RULES = [R1_decision_table, R2_loop_exits, R3_route_or_error, R4_response, R_graph_roles, R5_who_reports_no_path, RA_adjacency_container, RB_edge_oriented, RC_adjacency_built, RD_incident_edges, RE_restrictions_of_this_query]
